@@ -309,7 +309,7 @@ def gen_constraints(rng, d, prof):
             body = poly(rng, pool, (1, 2), 2, must=pool_dec)
             if use_off:
                 o = rng.choice(prof.get('offsets', [1, -1, 2, -2]))
-                oe = poly(rng, s['x'] + s['u'], (1, 1), 1)
+                oe = poly(rng, s['x'] + s['u'] + s['pc'] + s['pcp'] + s['vc'] + s['vcp'] + [('t',)], (1, 2), 2, must=s['x'] + s['u'] + s['vc'] + s['vcp'])
                 offs.append((oe, o))
                 body = ('+', body, ('*', E.C(coef(rng)), ('off', len(offs) - 1)))
             bound = E.C(coef(rng))
